@@ -202,6 +202,7 @@ type c06Inst struct {
 
 	nSends, nAcks, nTicks, nTimeouts int
 	dead                             bool
+	prefixFail                       *explore.Fail
 	outcome                          string
 }
 
@@ -224,8 +225,11 @@ func newC06Inst(cfg *c06Cfg) *c06Inst {
 	in.mValidated = cfg.pers == protocol.PerspectiveClient || cfg.addrValidated
 	in.fixGen()
 	for _, op := range cfg.prefix {
+		// an oracle failure inside the prefix is a verdict, not a harness error: it is
+		// reported by the single enabled operation "prefix"
 		if f := in.Apply(op); f != nil {
-			explore.Must(false, "prefix op %v failed: %s", op, f.What)
+			in.prefixFail = &explore.Fail{Key: f.Key + ":in-prefix", What: fmt.Sprintf("in the part's prefix %v at %v: %s", cfg.prefix, op, f.What)}
+			break
 		}
 	}
 	in.nSends, in.nAcks, in.nTicks, in.nTimeouts = 0, 0, 0, 0
@@ -264,6 +268,9 @@ func (in *c06Inst) canSend(l int) bool {
 func (in *c06Inst) Ops() []explore.Op {
 	if in.dead {
 		return nil
+	}
+	if in.prefixFail != nil {
+		return []explore.Op{{N: "prefix"}}
 	}
 	c := in.cfg
 	var ops []explore.Op
@@ -465,6 +472,9 @@ func c06Size(l, kind int, pn protocol.PacketNumber) protocol.ByteCount {
 
 func (in *c06Inst) Apply(op explore.Op) *explore.Fail {
 	in.outcome = ""
+	if in.prefixFail != nil {
+		return in.prefixFail
+	}
 	var opErr error
 	switch op.N {
 	case "send":
